@@ -90,16 +90,44 @@ def gen_pd_cases(ctx):
                "mode": "mat", "ref": ref, "est": est}
 
 
+def gen_hist_cases(ctx):
+    """object-reuse histories: one APE object, 2-3 process_data calls on different trajectory pairs (different
+    lengths, an occasional refused call), statistics / get_result after every call, a change_unit in between"""
+    r = ctx.rng
+    yield {"kind": "hist", "rel": "rot_part", "mode": "mat", "calls": [
+        {"ref": [mc.mat_pose(mc.AXIS_ROTS[0], [0, 0, 0])] * 3, "est": [mc.mat_pose(mc.AXIS_ROTS[5], [1, 0, 0])] * 3, "unit_after": None},
+        {"ref": [mc.mat_pose(mc.AXIS_ROTS[0], [0, 0, 0])], "est": [mc.mat_pose(mc.AXIS_ROTS[0], [0, 2, 0])], "unit_after": None}]}
+    for _ in range(40 if not ctx.thorough else 400):
+        calls = []
+        changed = False
+        for k in range(r.randint(2, 3)):
+            n = r.randint(1, 7)
+            ref, est = mc.gen_pair_lists(r, n + (1 if r.random() < 0.1 else 0), 1.0, [0.0, 0.0, 0.0], "uniform", "mixed")
+            ref = ref[:n]
+            u = None
+            if not changed and r.random() < 0.4:
+                u = r.choice(["mm", "km", "deg", "rad", "cm"])
+                changed = True
+            calls.append({"ref": ref, "est": est, "unit_after": u})
+        mode = r.choice(["mat", "quat"])
+        if mode == "quat":
+            for c in calls:
+                c["ref"], c["est"] = mc.to_quat_rows(c["ref"]), mc.to_quat_rows(c["est"])
+        yield {"kind": "hist", "rel": r.choice(mc.RELS[:6]), "mode": mode, "calls": calls}
+
+
 def gen_cases(ctx):
     yield from gen_pd_cases(ctx)
+    yield from gen_hist_cases(ctx)
+    yield from cli.gen_api_cases(ctx)
     yield from cli.gen_cli_cases(ctx, "ape")
 
 
 # ------------------------------------------------------------------------------------------------ implementation
-def run_ape(rel, ref_path, est_path):
+def run_ape(rel, ref_path, est_path, m=None):
     from evo.core import metrics
     from evo.core.lie_algebra import LieAlgebraException
-    m = metrics.APE(mc.pose_relation(rel))
+    m = m or metrics.APE(mc.pose_relation(rel))
     try:
         m.process_data((ref_path, est_path))
     except metrics.MetricsException as e:
@@ -132,6 +160,87 @@ def run_impl_pd(case):
     return out
 
 
+def stats_of(vals):
+    a = np.array(vals, dtype=float)
+    return {"rmse": float(np.sqrt(np.mean(a * a))), "mean": float(np.mean(a)), "median": float(np.median(a)),
+            "std": float(np.std(a)), "min": float(np.min(a)), "max": float(np.max(a)), "sse": float(np.sum(a * a))}
+
+
+def after_call(m, out, unit_after):
+    """statistics / result of the metric object right after a process_data call, then the optional unit change"""
+    from evo.core.units import Unit
+    try:
+        out["stats"] = {k: float(v) for k, v in m.get_all_statistics().items()}
+        res = m.get_result()
+        out["result_array_same"] = res.np_arrays["error_array"].tobytes() == np.asarray(m.error).tobytes()
+        out["result_stats_same"] = {k: float(v) for k, v in res.stats.items()} == out["stats"]
+    except Exception as e:  # noqa
+        out["stats_exc"] = type(e).__name__
+    if unit_after:
+        try:
+            m.change_unit(Unit(unit_after))
+            out["after_unit"] = [float(v) for v in np.asarray(m.error).reshape(-1)]
+        except Exception as e:  # noqa
+            out["after_unit_exc"] = type(e).__name__
+    out["unit_label"] = m.unit.value
+
+
+def run_impl_hist(case):
+    from evo.core import metrics
+    m = metrics.APE(mc.pose_relation(case["rel"]))
+    outs = []
+    for call in case["calls"]:
+        ref, est = mc.make_path(case["mode"], call["ref"]), mc.make_path(case["mode"], call["est"])
+        out = {"seen_ref": mc.seen_poses(ref), "seen_est": mc.seen_poses(est)}
+        out["res"] = run_ape(case["rel"], ref, est, m)
+        if "ok" in out["res"]:
+            after_call(m, out, call.get("unit_after"))
+        outs.append(out)
+    return outs
+
+
+def judge_stats(ctx, case, k, out, want, rel, unit_after):
+    """oracle on the reused object: statistics, result and unit change of call k refer to call k's values alone"""
+    if "stats_exc" in out:
+        ctx.fail(case, "reused-object-statistics", f"call {k}: get_all_statistics/get_result raised {out['stats_exc']}")
+        return
+    exp = stats_of(want)
+    scale = max([abs(v) for v in want] + [1e-300])
+    for key, v in exp.items():
+        got = out["stats"].get(key)
+        tol = 1e-7 * (scale * scale * len(want) if key == "sse" else scale) + 1e-300
+        if got is None or not abs(got - v) <= tol:
+            ctx.fail(case, "reused-object-statistics", f"call {k}: {key} = {got!r}, of this call's values alone {v!r}")
+            return
+    if not out.get("result_array_same") or not out.get("result_stats_same"):
+        ctx.fail(case, "reused-object-result", f"call {k}: get_result() does not carry this call's error array / statistics")
+    if unit_after:
+        fac = cli.unit_factor(rel, unit_after)
+        if fac is None:
+            if "after_unit_exc" not in out:
+                ctx.fail(case, "reused-object-change_unit", f"call {k}: conversion to {unit_after} not refused")
+        elif "after_unit" not in out or len(out["after_unit"]) != len(want) or \
+                any(not abs(a - w * fac) <= 1e-7 * (scale * abs(fac)) + 1e-300 for a, w in zip(out["after_unit"], want)):
+            ctx.fail(case, "reused-object-change_unit", f"call {k}: values after change_unit({unit_after}) are not this call's values x {fac}")
+        ctx.count("branch", "hist-change_unit")
+
+
+def judge_hist(ctx, case, impls, outs_per_call):
+    rel = case["rel"]
+    native = {"trans_part": "m", "point_distance": "m", "angle_deg": "deg", "angle_rad": "rad"}.get(rel, "unit-less")
+    for k, (call, out, outs) in enumerate(zip(case["calls"], impls, outs_per_call)):
+        sub = {"kind": "pd", "stream": "hist", "rel": rel, "mode": case["mode"], "ref": call["ref"], "est": call["est"]}
+        judge_pd(ctx, sub, out, outs, report_case=case)
+        if "ok" in out["res"] and len(call["ref"]) == len(call["est"]) and len(out["res"]["ok"]) == len(call["ref"]):
+            # this call's values (checked against the definition by judge_pd above) are the reference for the
+            # statistics / result / unit change of the same call
+            judge_stats(ctx, case, k, out, out["res"]["ok"], rel, call.get("unit_after"))
+        if k > 0 and out.get("unit_label") not in (None, native) and not call.get("unit_after"):
+            ctx.count("branch", "observation:unit-label-of-earlier-change_unit-persists-over-process_data")
+    ctx.count("branch", "hist-calls", len(case["calls"]))
+    ctx.record(case, True)
+
+
 # ------------------------------------------------------------------------------------------------ model
 def model_lines_pd(case, impl):
     a = f"{mc.poselist(impl['seen_ref'])} {mc.poselist(impl['seen_est'])}"
@@ -156,7 +265,8 @@ def textbook_ape(rel, ref, est):
     return mc.textbook_value(rel, mc.rel_true(est, ref))
 
 
-def judge_pd(ctx, case, impl, outs):
+def judge_pd(ctx, case, impl, outs, report_case=None):
+    rc = report_case or case
     rel = case["rel"]
     res = impl["res"]
     m_out = outs[0]
@@ -171,35 +281,35 @@ def judge_pd(ctx, case, impl, outs):
         ctx.skipped += 1
     elif "err" in res or not m_out.startswith("OK"):
         if res.get("err") != m_out:
-            ctx.mismatch(case, "APE.process_data refusal differs from Ape.ape", res.get("err", "values"), m_out[:40])
+            ctx.mismatch(rc, "APE.process_data refusal differs from Ape.ape", res.get("err", "values"), m_out[:40])
         ctx.count("branch", "refused:" + m_out if not m_out.startswith("OK") else "model-ok-impl-refused")
     else:
         toks = m_out.split()[1:]
         if len(toks) != len(res["ok"]):
-            ctx.mismatch(case, "number of APE values differs from the model", len(res["ok"]), len(toks))
+            ctx.mismatch(rc, "number of APE values differs from the model", len(res["ok"]), len(toks))
         else:
             for k, (v, tok) in enumerate(zip(res["ok"], toks)):
                 mv = mc.value_of_core(tok)
                 tol = mc.tolerance(rel, [impl["seen_ref"][k], impl["seen_est"][k]], mv)
                 if not abs(v - mv) <= tol:
-                    ctx.mismatch(case, f"APE value {k} differs from the model core ({rel})", v, mv)
+                    ctx.mismatch(rc, f"APE value {k} differs from the model core ({rel})", v, mv)
                     break
             ctx.count("branch", "values:" + rel)
     # ---- oracle (property sentence, independent of the model)
     if n_ref != n_est:
         if "ok" in res:
-            ctx.fail(case, "refuses-unequal-lengths", f"{n_ref} reference vs {n_est} estimate poses gave {len(res['ok'])} values")
+            ctx.fail(rc, "refuses-unequal-lengths", f"{n_ref} reference vs {n_est} estimate poses gave {len(res['ok'])} values")
     elif "ok" in res and case["stream"] != "non-so3":
         vals = res["ok"]
         if len(vals) != n_ref:
-            ctx.fail(case, "one-value-per-pose", f"{len(vals)} values for {n_ref} poses")
+            ctx.fail(rc, "one-value-per-pose", f"{len(vals)} values for {n_ref} poses")
         else:
             ref, est = exact_rows(case, "ref"), exact_rows(case, "est")
             for k in range(n_ref):
                 want = textbook_ape(rel, ref[k], est[k])
                 tol = 4 * mc.tolerance(rel, [impl["seen_ref"][k], impl["seen_est"][k]], want)
                 if not abs(vals[k] - want) <= tol:
-                    ctx.fail(case, "value-equals-definition",
+                    ctx.fail(rc, "value-equals-definition",
                              f"{rel}: pose {k}: evo {vals[k]!r}, definition {want!r} (tol {tol:.3g})")
                     break
             for name, clause in (("self", "zero-when-coinciding"), ("swap", "unchanged-when-swapped"),
@@ -208,7 +318,7 @@ def judge_pd(ctx, case, impl, outs):
                     continue
                 o = impl[name]
                 if "ok" not in o or len(o["ok"]) != n_ref:
-                    ctx.fail(case, clause, f"{name}: {o}")
+                    ctx.fail(rc, clause, f"{name}: {o}")
                     continue
                 for k in range(n_ref):
                     pk = [impl["seen_ref"][k], impl["seen_est"][k]]
@@ -217,16 +327,23 @@ def judge_pd(ctx, case, impl, outs):
                     want = 0.0 if name == "self" else vals[k]
                     tol = 8 * mc.tolerance(rel, pk, want)
                     if not abs(o["ok"][k] - want) <= tol:
-                        ctx.fail(case, clause, f"{rel}: pose {k}: {o['ok'][k]!r} vs {want!r} (tol {tol:.3g})")
+                        ctx.fail(rc, clause, f"{rel}: pose {k}: {o['ok'][k]!r} vs {want!r} (tol {tol:.3g})")
                         break
     # ---- bookkeeping
     ctx.count("dist", f"pd:{case['stream']}:{case['mode']}")
     ctx.count("dist", "rel:" + rel)
     nontrivial = ("err" in res) or (sum(1 for v in res.get("ok", []) if v != 0.0) >= 2)
-    ctx.record(case, nontrivial)
+    ctx.record(rc if report_case is None else case, nontrivial)
 
 
 def shrink(case):
+    if case["kind"] == "hist":
+        if len(case["calls"]) > 2:
+            for k in range(len(case["calls"])):
+                c = dict(case)
+                c["calls"] = case["calls"][:k] + case["calls"][k + 1:]
+                yield c
+        return
     if case["kind"] != "pd":
         yield from cli.shrink(case)
         return
@@ -259,7 +376,20 @@ def evaluate(ctx, cases):
     outs = core.run_driver(lines, "C01")
     for c, im, (a, b) in zip(pd, impls, spans):
         judge_pd(ctx, c, im, outs[a:b])
-    cli.evaluate(ctx, [c for c in cases if c["kind"] == "cli"], "ape")
+    hist = [c for c in cases if c["kind"] == "hist"]
+    himpls = [run_impl_hist(c) for c in hist]
+    lines, spans = [], []
+    for c, ims in zip(hist, himpls):
+        sp = []
+        for im in ims:
+            l = model_lines_pd({"rel": c["rel"]}, im)
+            sp.append((len(lines), len(lines) + len(l)))
+            lines += l
+        spans.append(sp)
+    outs = core.run_driver(lines, "C01")
+    for c, ims, sp in zip(hist, himpls, spans):
+        judge_hist(ctx, c, ims, [outs[a:b] for a, b in sp])
+    cli.evaluate(ctx, [c for c in cases if c["kind"] in ("cli", "api2")], "ape")
 
 
 OPEN = ["float rounding of evo's evaluation: values agree with the exact definition within 64*2^-53*(max|input|+|result|), checked per case, not proved",
